@@ -334,6 +334,33 @@ func own(c *mon.Ctx, r *gen.Rand) {
 	}
 }
 
+// sectionOrder arranges the streams a PMT lists in the order their PIDs have in the section they were decoded
+// from (pids; PIDs that are no longer listed are passed over): the statement speaks about what is reported per
+// stream and per PID, the order of the list is C06's business. When the list cannot be matched with the PIDs it
+// is returned as it is, and the comparison that follows reports it.
+func sectionOrder(ess []psi.PmtElementaryStream, pids []int) []psi.PmtElementaryStream {
+	by := map[int]psi.PmtElementaryStream{}
+	for _, es := range ess {
+		if es == nil {
+			return ess
+		}
+		if _, dup := by[es.ElementaryPid()]; dup {
+			return ess
+		}
+		by[es.ElementaryPid()] = es
+	}
+	var out []psi.PmtElementaryStream
+	for _, pid := range pids {
+		if es, ok := by[pid]; ok {
+			out = append(out, es)
+		}
+	}
+	if len(out) != len(ess) {
+		return ess
+	}
+	return out
+}
+
 func bitlen(v uint32) int {
 	n := 0
 	for ; v > 0; v >>= 1 {
@@ -360,7 +387,7 @@ func run(c *mon.Ctx) {
 			c.Fail("streamtype:pmt-setup", fmt.Sprintf("a two-stream PMT was not decoded: %v", err), wit{Case: "pmt", Body: mon.Hex(pay)})
 			return
 		}
-		checkStreamType(c, "PMT.ElementaryStreams", byte(code), m.ElementaryStreams()[1])
+		checkStreamType(c, "PMT.ElementaryStreams", byte(code), sectionOrder(m.ElementaryStreams(), []int{other, pid})[1])
 		if g := m.IsPidForStreamWherePresentationLagsEbp(pid); g != lags(byte(code)) {
 			c.Fail("streamtype:pmt-lags-by-pid", fmt.Sprintf("IsPidForStreamWherePresentationLagsEbp(pid of a stream_type %#02x stream) = %v", code, g), wit{Case: "pmt", Body: mon.Hex(pay)})
 		}
@@ -407,7 +434,11 @@ func run(c *mon.Ctx) {
 			c.Fail("streamtype:pmt-streams-after-edit-of-another-object", fmt.Sprintf("a PMT lists %d of its %d streams after streams were removed from another PMT object decoded from the same bytes", len(m.ElementaryStreams()), n), wit{Case: "pmt", Body: mon.Hex(pay)})
 			return
 		}
-		for j, es := range m.ElementaryStreams() {
+		var inSection []int
+		for j := 0; j < n; j++ {
+			inSection = append(inSection, 0x100+j)
+		}
+		for j, es := range sectionOrder(m.ElementaryStreams(), inSection) {
 			checkStreamType(c, fmt.Sprintf("PMT.ElementaryStreams (stream %d of %d)", j, n), byte(perm[j]), es)
 			if g := m.IsPidForStreamWherePresentationLagsEbp(0x100 + j); g != lags(byte(perm[j])) {
 				c.Fail("streamtype:pmt-lags-by-pid", fmt.Sprintf("IsPidForStreamWherePresentationLagsEbp(pid of a stream_type %#02x stream, stream %d of %d) = %v", perm[j], j, n, g), wit{Case: "pmt", Body: mon.Hex(pay)})
@@ -454,7 +485,7 @@ func run(c *mon.Ctx) {
 		}
 		e.m = m
 		check := func(x *exp, when string) bool {
-			ess := x.m.ElementaryStreams()
+			ess := sectionOrder(x.m.ElementaryStreams(), x.pids)
 			if len(ess) != len(x.pids) {
 				c.Fail("readpmt:streams"+when, fmt.Sprintf("a PMT obtained through ReadPMT lists %d streams, its section has %d", len(ess), len(x.pids)), wit{Case: "readpmt" + when})
 				return false
@@ -534,6 +565,7 @@ func run(c *mon.Ctx) {
 		}
 	})
 	// the PMT-level query by PID, across removals (query, remove, query again)
+	c.Floor("pmt_query.descriptor_loop_of_256_bytes_or_more", 300)
 	c.Stream("pmt-query-after-remove", c.N(4000, 2000000), func(i int, r *gen.Rand) {
 		p := ref.PMT{Program: 1, Version: byte(r.Intn(32)), CurrentNext: !r.Chance(4), PCRPID: 0x100}
 		n := 2 + r.Intn(7)
@@ -554,6 +586,20 @@ func run(c *mon.Ctx) {
 				es.Descs = append(es.Descs, ref.Desc{Tag: r.PickByte([]byte{0x6a, 0x7a, 0x05, 0x52, 0x56, 0x59, 0x7f, 0xcc, 0x81}), Body: r.Bytes(r.Intn(7))})
 			}
 			p.Streams = append(p.Streams, es)
+		}
+		if r.Chance(5) {
+			// a descriptor loop of 256 bytes and more (the 12-bit length fields allow 1023), of one stream or of the program
+			fill := []ref.Desc{{Tag: 0xfe, Body: r.Bytes(r.PickInt([]int{240, 250, 251, 252, 253, 255}))}}
+			for k := r.Intn(3); k > 0; k-- {
+				fill = append(fill, ref.Desc{Tag: r.PickByte([]byte{0xfd, 0x83, 0xcc}), Body: r.Bytes(r.Intn(120))})
+			}
+			if r.Bool() {
+				k := r.Intn(len(p.Streams))
+				p.Streams[k].Descs = append(p.Streams[k].Descs, fill...)
+			} else {
+				p.ProgDescs = fill
+			}
+			c.Count("pmt_query.descriptor_loop_of_256_bytes_or_more")
 		}
 		// put the streams in a random order (the ES loop need not be sorted by PID)
 		for k := len(p.Streams) - 1; k > 0; k-- {
@@ -595,7 +641,11 @@ func run(c *mon.Ctx) {
 				appended = true
 			}
 			k := 0
-			for _, es := range m.ElementaryStreams() {
+			var inSection []int
+			for _, w := range p.Streams {
+				inSection = append(inSection, w.PID)
+			}
+			for _, es := range sectionOrder(m.ElementaryStreams(), inSection) {
 				for gone[p.Streams[k].PID] {
 					k++
 				}
